@@ -65,7 +65,7 @@ fn flow_branch(r: &mut Rng) -> String {
     }
 }
 
-pub fn generate(r: &mut Rng, _tier: Tier) -> serde_json::Value {
+pub fn generate(r: &mut Rng, _tier: Tier, _group: u64) -> serde_json::Value {
     let mut actors = c02::gen_actors(r);
     for a in actors.iter_mut() {
         a.clock = a.clock.min(4_000_000_000);
